@@ -8,15 +8,15 @@ DEINVERTING = [{'name': 'default'}, {'name': 'amr'}, {'name': 'mini'}]
 
 _BASES = ['ARG0', 'ARG1', 'mod', 'domain', 'r', 's', 'part', 'poss', 'loc', 'q', 'x2y', 'name']
 _OF_NAMES = ['consist-of', 'out-of', 'made-of']          # defined roles that end in -of by definition
-_PATTERNS = ['op[0-9]+', 'snt[0-9]+', 'ARG[0-9]', 'x[0-9]y[0-9]+', 'part[0-9]*-of']
+_PATTERNS = ['op[0-9]+', 'snt[0-9]+', 'ARG[0-9]', 'x[0-9]y[0-9]+', 'part[0-9]*-of', 'member-(of|to)']
 _PATTERN_INSTANCES = {'op[0-9]+': ['op1', 'op2', 'op10', 'op9'], 'snt[0-9]+': ['snt1', 'snt12'], 'ARG[0-9]': ['ARG0', 'ARG5'],
-                      'x[0-9]y[0-9]+': ['x2y9', 'x2y10'], 'part[0-9]*-of': ['part-of', 'part2-of'],
+                      'x[0-9]y[0-9]+': ['x2y9', 'x2y10'], 'part[0-9]*-of': ['part-of', 'part2-of'], 'member-(of|to)': ['member-of', 'member-to'],
                       'prep-[a-z-]+': ['prep-out-of', 'prep-on-behalf-of', 'prep-x', 'prep-as-of-of']}
 _CONCEPTS = ['have-mod-91', 'own-01', 'be-located-at-91', 'rel-01', 'c-91', 'include-91']
 
 
 @st.composite
-def custom_tables(draw, reifications=True, normalizations=True, open_patterns=False):
+def custom_tables(draw, reifications=True, normalizations=True, open_patterns=False, chains=False):
     """Random role table with the two restrictions the laws need (DESIGN section 3):
     (i) inversion-unambiguous: never both r and r-of defined, and defined roles end in at most one "-of";
     (ii) normalisation values are not keys and are double-inversion fixed points."""
@@ -40,7 +40,9 @@ def custom_tables(draw, reifications=True, normalizations=True, open_patterns=Fa
     spec = {'name': 'custom', 'roles': roles, 'normalizations': {}, 'reifications': [], 'pool': pool,
             'noop': chance(draw, 1, 6)}
     if chance(draw, 1, 5):
-        spec['top_role'] = pick(draw, [':TOP', ':top', ':ROOT'])
+        spec['top_role'] = pick(draw, [':TOP', ':top', ':ROOT', ':root-of'])
+    if 'top_role' in spec:
+        spec['pool'] = spec['pool'] + [spec['top_role']]
     defined_lits = [':' + r for r in lits + ofs]
     if normalizations and len(defined_lits) >= 2 and chance(draw, 2, 3):
         # AMR style crossed pairs  :a-of -> :b , :b-of -> :a   (values are defined, hence fixed points, and not keys)
@@ -50,6 +52,9 @@ def custom_tables(draw, reifications=True, normalizations=True, open_patterns=Fa
             spec['normalizations'][b + '-of'] = a
         if chance(draw, 1, 3):
             spec['normalizations'][':alias'] = a
+        if chains and chance(draw, 1, 2):
+            # a chain  b -> :attr : one lookup only, so idempotence is not a law for roles that normalise into b
+            spec['normalizations'][b] = ':attr'
     if reifications and defined_lits:
         used = set()
         for r in fy(draw, defined_lits)[:draw(st.integers(0, 3))]:
@@ -60,8 +65,8 @@ def custom_tables(draw, reifications=True, normalizations=True, open_patterns=Fa
     return spec
 
 
-def model_specs(custom=True, noop=True, open_patterns=False):
+def model_specs(custom=True, noop=True, open_patterns=False, chains=False):
     named = [m for m in NAMED if noop or m['name'] != 'noop']
     if not custom:
         return st.sampled_from(named)
-    return st.one_of(st.sampled_from(named), st.sampled_from(named), custom_tables(open_patterns=open_patterns))
+    return st.one_of(st.sampled_from(named), st.sampled_from(named), custom_tables(open_patterns=open_patterns, chains=chains))
